@@ -47,27 +47,27 @@ type lockWeights struct {
 }
 
 type lockCfg struct {
-	Label       string
-	NVals       int
-	Powers      []uint64
-	MaxVals     int64
-	Blocks      int
-	W           lockWeights
-	Adversarial bool // unknown validators/tokens, duplicate ids, bad creates
-	Params      func(*lockingtypes.Params)
-	Genesis     func(*lockingtypes.GenesisState)
-	Cons        func(*cmttypes.ConsensusParams)
-	Relayer     func(*relayertypes.GenesisState)
-	NRelayers   int
-	NNodes      int
-	DiskDB      bool
-	Rotate      bool
-	StepOpts    func(*world.StepOpts)
-	Step        time.Duration
-	JumpTime    bool // occasional large block-time steps
+	Label          string
+	NVals          int
+	Powers         []uint64
+	MaxVals        int64
+	Blocks         int
+	W              lockWeights
+	Adversarial    bool // unknown validators/tokens, duplicate ids, bad creates
+	Params         func(*lockingtypes.Params)
+	Genesis        func(*lockingtypes.GenesisState)
+	Cons           func(*cmttypes.ConsensusParams)
+	Relayer        func(*relayertypes.GenesisState)
+	NRelayers      int
+	NNodes         int
+	DiskDB         bool
+	Rotate         bool
+	StepOpts       func(*world.StepOpts)
+	Step           time.Duration
+	JumpTime       bool // occasional large block-time steps
 	TargetPunished bool // lock/unlock requests prefer jailed and tombstoned validators
 	EvidenceAges   bool // evidence height and time ages are drawn independently around the limits
-	Protect0    bool // validator 0 (the node's own) is never punished or pushed below a threshold
+	Protect0       bool // validator 0 (the node's own) is never punished or pushed below a threshold
 }
 
 type hVal struct {
@@ -141,7 +141,7 @@ type lockHist struct {
 	tokens    []common.Address
 	failed    bool
 	crashFn   func(*world.ErrCrash)
-	extra     func(*blockOps)      // lets a check add requests to the generated block
+	extra     func(*blockOps) // lets a check add requests to the generated block
 	hookAfter func(*world.Block)
 	prevNext  *cmttypes.ValidatorSet // CometBFT's next validator set before the current block's updates
 	rejectFn  func(*world.ErrRejected)
@@ -620,7 +620,7 @@ func (h *lockHist) onReject(rj *world.ErrRejected) {
 		h.rejectFn(rj)
 		return
 	}
-	h.c.Inconclusive("honest proposal rejected in a %s history: %v", h.cfg.Label, rj)
+	h.c.Inconclusive("honest proposal rejected in a %s history: %v; last ops: %v", h.cfg.Label, rj, lastN(h.opsLog, 6))
 }
 
 func failClass(log string) string {
